@@ -13,7 +13,7 @@ import ast, hashlib, json, os, re
 import vlib
 
 TRUSTED = [
-    "Coq 8.16.1 kernel + vm_compute (witness evaluation, complete sweep of the enumerated skeleton family)",
+    "Coq 8.16.1 kernel + vm_compute (witness evaluation; the sweeps are cross-checks, the lowering theorems are unbounded inductions)",
     "Model/AirLower.v is a hand model of air/src/lower.rs restricted to what decides block structure "
     "(block-id allocation, seal/pending/fixup/alias/finalize, statement emission, name table, lower_function "
     "save/restore); tied on every run by hx_air (canonical block lists must be equal)",
@@ -24,7 +24,9 @@ TRUSTED = [
     "the validator in hx_air (mod validate) is the statement of the property on the real data structure; "
     "'argument types at a call' are the AIR operand types (constants by literal kind, locals by declaration)",
     "statement contents (operands, operators, constants) are not modelled: the theorems carry the CFG/mono structure, "
-    "the per-local and per-struct clauses are checked only by the validator on generated programs",
+    "the per-local and per-struct clauses of lower() are checked only by the validator on generated programs",
+    "theorems about branch targets carry the guard breaks_scoped (break/continue inside a loop of the same function); "
+    "guarded mono_closed is proved only on a bounded family (6175 programs x 3 orders)",
 ]
 
 IMPORT_SK = "From Aelys Require Import Model.AirLower.\nLocal Open Scope N_scope."
